@@ -927,7 +927,6 @@ func constValAbs(p *core.Program, pkgPath, name string) int64 {
 	return -1 << 62
 }
 
-
 // payloadLastPreds: the operands of "the last block is the payload block" - the type code (through the block's
 // interface or CanonicalBlock.TypeCode) of the element at [len-1], compared with the payload block's type constant.
 func payloadLastPreds(payloadType int64) []func(ssa.Value) bool {
@@ -952,7 +951,6 @@ func checkPayloadLastGuard(p *core.Program, r *core.Report) {
 	k := constVal(p, bp7, "ExtBlockTypePayloadBlock")
 	r.Check(guardMentions(cv, payloadLastPreds(k)...), "rule-guard/"+fname(cv)+"/payload-block-last", "the validator, which the parser runs on everything it accepts, contains an error-producing branch whose condition compares the TYPE of the last block with the payload block's type", p.Pos(cv.Pos()), "", "no error branch guarded by a condition mentioning the last block's type code and the payload type constant")
 }
-
 
 // isTypeCodeCall: the block's type code, asked of the block's value (interface method BlockTypeCode) or of the
 // canonical block (TypeCode, which returns the former).
